@@ -378,9 +378,45 @@ func c11ExtractStatePlumb(repo string) (string, string, error) {
 	}
 	tg := &c11Plumb{fn: "graph.compile", modVars: map[string]bool{}}
 	var runCtx []string
+	var translatedGraph []string // methods of graph.go read as part of graph.compile
 	runCtxOn := ""
 	var walkErr error
 	nAssign := 0
+	// `r.runCtx = g.m()` with  func (g *graph) m() … { if g.stateGenerator == nil { return nil }; return func… }
+	// is  `if g.stateGenerator != nil { r.runCtx = func… }`  (the field is nil otherwise)
+	for i, st := range compile.Body.List {
+		as, ok := st.(*ast.AssignStmt)
+		if !ok || len(as.Lhs) != 1 || len(as.Rhs) != 1 || c11Sq(as.Lhs[0]) != "r.runCtx" {
+			continue
+		}
+		call, ok := as.Rhs[0].(*ast.CallExpr)
+		if !ok || len(call.Args) != 0 {
+			continue
+		}
+		sel, ok := call.Fun.(*ast.SelectorExpr)
+		if !ok || c11Ident(sel.X) != "g" {
+			continue
+		}
+		m := c11Method(gf, "graph", sel.Sel.Name)
+		if m == nil || m.Body == nil || len(m.Body.List) != 2 || len(m.Recv.List[0].Names) != 1 || m.Recv.List[0].Names[0].Name != "g" {
+			continue
+		}
+		guard, ok1 := m.Body.List[0].(*ast.IfStmt)
+		ret, ok2 := m.Body.List[1].(*ast.ReturnStmt)
+		if !ok1 || !ok2 || guard.Init != nil || guard.Else != nil || len(guard.Body.List) != 1 || len(ret.Results) != 1 {
+			continue
+		}
+		gr, ok := guard.Body.List[0].(*ast.ReturnStmt)
+		if !ok || len(gr.Results) != 1 || !c11IsNil(gr.Results[0]) {
+			continue
+		}
+		if _, isLit := ret.Results[0].(*ast.FuncLit); !isLit || c11CountCalls(gf, sel.Sel.Name) != 1 {
+			continue
+		}
+		compile.Body.List[i] = &ast.IfStmt{Cond: c11Negate(guard.Cond), Body: &ast.BlockStmt{List: []ast.Stmt{
+			&ast.AssignStmt{Lhs: as.Lhs, Tok: token.ASSIGN, Rhs: []ast.Expr{ret.Results[0]}}}}}
+		translatedGraph = append(translatedGraph, sel.Sel.Name)
+	}
 	ast.Inspect(compile.Body, func(n ast.Node) bool {
 		is, ok := n.(*ast.IfStmt)
 		if !ok || walkErr != nil {
@@ -619,6 +655,9 @@ func c11ExtractStatePlumb(repo string) (string, string, error) {
 		"graph_run.go:handleInterruptWithSubGraphAndRerunNodes": true}
 	files, _ := filepath.Glob(filepath.Join(repo, "compose", "*.go"))
 	sort.Strings(files)
+	for _, m := range translatedGraph {
+		translated["graph.go:"+m] = true
+	}
 	// a helper of graph_run.go whose body has been inlined at every one of its call sites is translated
 	for h, n := range helpers {
 		calls := 0
